@@ -47,10 +47,18 @@ func C01(c Ctx) *report.Report {
 	}
 	// margin: open / close / admin close / liquidations and interest payments in BeginBlock, interleaved with swaps
 	nextM := 2000000
-	mhs := RunMarginHistories(c, rep, rng, c.N(8, 250), 45, &nextM)
+	mhs := []MHistory{ScriptLiquidationSurplus(9021, &nextM)} // corpus first
+	mhs = append(mhs, RunMarginHistories(c, rep, rng, c.N(12, 250), 45, &nextM)...)
+	liquidated := 0
 	for _, h := range mhs {
 		MonMarginSolvency(rep, h)
+		for _, s := range h.Steps {
+			if s.Kind == 3 && len(s.Post.MTPs) < len(s.Pre.MTPs) {
+				liquidated++
+			}
+		}
 	}
+	rep.Distribution["margin.begin-block.with-liquidation"] = liquidated
 	rep.Evaluations = next + (nextM - 2000000)
 	rep.DistinctNontrivial = countNontrivial(hs) + (nextM - 2000000)
 	rep.Rule = histRule + "; plus margin histories (see C13) whose every transition is re-run by the margin model and checked for module balance = pool balances + custody"
